@@ -183,6 +183,16 @@ func c18Request(kind, field string, size int) vlib.Req {
 	if kind == "noncors" {
 		delete(h, "Origin")
 	}
+	if unit == "lowerkey" {
+		// the lines sit under a key that is not in canonical form (a map filled without http.Header's methods): to
+		// net/http, and to the middleware, that is another header
+		for _, k := range []string{"Access-Control-Request-Headers", "Origin"} {
+			if v, ok := h[k]; ok && len(v) > 1 {
+				h[strings.ToLower(k)] = v
+				h[k] = v[:1]
+			}
+		}
+	}
 	return vlib.Req{Method: method, Hdr: h}
 }
 
@@ -312,7 +322,7 @@ func checkC18(c *vlib.Ctx) (string, string) {
 		{"origin-labels", countLadder}, {"origin-labels:\u00e9", countLadder}, {"origin-labels:xn--a", countLadder}, {"origin-labels:A", countLadder},
 		{"origin-elements", countLadder}, {"origin-elements:,", countLadder}, {"origin-elements:, ", countLadder}, {"origin-elements:\t", countLadder},
 		{"acrm-lines", countLadder}, {"acrm-lines:put", countLadder}, {"acrm-lines:Put", countLadder}, {"acrm-lines:query", countLadder}, {"origin-lines", countLadder}, {"acrpn-lines", countLadder},
-		{"acrh-lines", countLadder}, {"acrh-lines:authorization", countLadder}, {"acrh-lines:x-a,authorization", countLadder}, {"acrh-lines:X-A", countLadder}, {"acrh-lines:x-zz", countLadder}, {"acrh-lines:empty", countLadder}, {"acrh-lines:x-a,x-b", countLadder},
+		{"acrh-lines", countLadder}, {"acrh-lines:lowerkey", countLadder}, {"origin-lines:lowerkey", countLadder}, {"acrh-lines:authorization", countLadder}, {"acrh-lines:x-a,authorization", countLadder}, {"acrh-lines:X-A", countLadder}, {"acrh-lines:x-zz", countLadder}, {"acrh-lines:empty", countLadder}, {"acrh-lines:x-a,x-b", countLadder},
 	}
 	maxSeen := 0.0
 	hist := map[string]int{}
